@@ -169,3 +169,69 @@ Example grouping_key_listing_order :
   grouping_key f2_universe [("x", [0]); ("y", [1])] = grouping_key f2_universe [("y", [1]); ("x", [0])] /\
   grouping_key f2_universe [("b", [1]); ("a", [0]); ("c", [0; 1])] = grouping_key f2_universe [("c", [0; 1]); ("b", [1]); ("a", [0])].
 Proof. split; vm_compute; reflexivity. Qed.
+
+(* ---- the converse: the same Go map along the same trie path has the same key ------------
+   (the model finds an entry whenever the code does).  The listing by architecture name is
+   canonical: two sorted listings of one map with distinct architectures are equal. *)
+From Apko Require Base.C01Lib.
+From Coq Require Import Sorting.Sorted.
+
+Definition kle (a b : string * list idxid) : Prop := String.leb (fst a) (fst b) = true.
+
+Lemma ins_by_arch_In e l x : In x (ins_by_arch e l) <-> x = e \/ In x l.
+Proof.
+  split.
+  - intros H. apply (Permutation_in x (ins_by_arch_perm e l)) in H. destruct H as [H|H]; [left; symmetry; exact H | right; exact H].
+  - intros H. apply (Permutation_in x (Permutation_sym (ins_by_arch_perm e l))). destruct H as [->|H]; [left; reflexivity | right; exact H].
+Qed.
+
+Lemma ins_by_arch_sorted e l : StronglySorted kle l -> StronglySorted kle (ins_by_arch e l).
+Proof.
+  induction l as [|y t IH]; intros S; simpl; [repeat constructor|].
+  inversion S as [|? ? St Hy]; subst. destruct (String.leb (fst e) (fst y)) eqn:E.
+  - constructor; [exact S|]. constructor; [exact E|]. rewrite Forall_forall in *. intros z Hz.
+    unfold kle. apply (C01Lib.sleb_trans (fst e) (fst y) (fst z)); [exact E | apply Hy; exact Hz].
+  - constructor; [apply IH; exact St|]. rewrite Forall_forall in *. intros z Hz. apply ins_by_arch_In in Hz.
+    destruct Hz as [->|Hz]; [|apply Hy; exact Hz].
+    unfold kle. destruct (C01Lib.sleb_total (fst e) (fst y)) as [T|T]; [unfold C01Lib.sleb in T; congruence | exact T].
+Qed.
+
+Lemma sort_by_arch_sorted g : StronglySorted kle (sort_by_arch g).
+Proof. induction g as [|e g IH]; simpl; [constructor | apply ins_by_arch_sorted; exact IH]. Qed.
+
+Lemma key_injective (l : grouping) x y : NoDup (List.map fst l) -> In x l -> In y l -> fst x = fst y -> x = y.
+Proof.
+  induction l as [|z l IH]; intros N Hx Hy E; [contradiction|]. simpl in N. inversion N as [|? ? N1 N2]; subst.
+  destruct Hx as [->|Hx], Hy as [->|Hy]; try reflexivity.
+  - exfalso. apply N1. rewrite E. apply in_map. exact Hy.
+  - exfalso. apply N1. rewrite <- E. apply in_map. exact Hx.
+  - apply IH; assumption.
+Qed.
+
+Lemma sorted_perm_unique : forall l l' : grouping,
+  StronglySorted kle l -> StronglySorted kle l' -> Permutation l l' -> NoDup (List.map fst l) -> l = l'.
+Proof.
+  induction l as [|x t IH]; intros l' S S' P N.
+  - apply Permutation_nil in P. symmetry. exact P.
+  - destruct l' as [|y t']; [apply Permutation_sym, Permutation_nil in P; discriminate|].
+    inversion S as [|? ? St Hx]; subst. inversion S' as [|? ? St' Hy]; subst. rewrite Forall_forall in Hx, Hy.
+    assert (Ix : In x (y :: t')) by (apply (Permutation_in x P); left; reflexivity).
+    assert (Iy : In y (x :: t)) by (apply (Permutation_in y (Permutation_sym P)); left; reflexivity).
+    assert (E : x = y).
+    { destruct Ix as [Ix|Ix]; [symmetry; exact Ix|]. destruct Iy as [Iy|Iy]; [exact Iy|].
+      apply (key_injective (x :: t) x y N); [left; reflexivity | right; exact Iy|].
+      apply C01Lib.sleb_antisym; [apply Hx; exact Iy | apply Hy; exact Ix]. }
+    subst y. f_equal. apply IH; [exact St | exact St' | eapply Permutation_cons_inv; exact P|].
+    simpl in N. inversion N; assumption.
+Qed.
+
+Theorem sort_by_arch_canonical a b : NoDup (List.map fst a) -> Permutation a b -> sort_by_arch a = sort_by_arch b.
+Proof.
+  intros N P. apply sorted_perm_unique; try apply sort_by_arch_sorted.
+  - eapply Permutation_trans; [apply sort_by_arch_perm|]. eapply Permutation_trans; [exact P | apply Permutation_sym, sort_by_arch_perm].
+  - apply (Permutation_NoDup (l := List.map fst a)); [|exact N]. apply Permutation_map, Permutation_sym, sort_by_arch_perm.
+Qed.
+
+Theorem grouping_key_complete u a b :
+  NoDup (List.map fst a) -> Permutation a b -> dq_key u a = dq_key u b -> grouping_key u a = grouping_key u b.
+Proof. intros N P K. unfold grouping_key. rewrite K, (sort_by_arch_canonical a b N P). reflexivity. Qed.
